@@ -32,7 +32,7 @@ theorem keypad_pipeline :
   decide +kernel
 
 /-- **key_pipeline.** The property's sentence as one statement over the whole kernel-evaluated key domain
-    (`C13.domainKeys`: 26 special keys + 95 printable ASCII keys × 8 Shift/Alt/Ctrl sets × 5 event shapes) × 4 (keypad,
+    (`C13.domainKeys`: 27 special keys + 95 printable ASCII keys × 8 Shift/Alt/Ctrl sets × 5 event shapes) × 4 (keypad,
     cursor-key) modes: whenever the xterm legacy protocol expresses the chord, the BYTES `encodeXterm` writes are parsed by
     the parser model (C02, ground state) into exactly the one sequence of xterm's report, and `decodeKey` of that sequence
     matches the original key and modifiers.  (The lone `ESC` of the Escape key is delivered by the escape time-out, C08.) -/
